@@ -81,6 +81,15 @@ class Parser:
     def until_semicolon(self):
         out = []
         while self.peek() != ";":
+            if self.peek() == "{" and out and out[-1] == "=":      # aggregate initializer
+                depth = 0
+                while True:
+                    x = self.take()
+                    depth += (x == "{") - (x == "}")
+                    out.append(x)
+                    if depth == 0:
+                        break
+                continue
             if self.peek() in ("{", "}", None):
                 _fail("%s: unterminated statement %r" % (self.where, " ".join(out)))
             out.append(self.take())
@@ -256,7 +265,6 @@ def gen_traverse(src):
 
 
 def structptr_owns(src):
-    s = " ".join(TOK.findall(strip(src)))
     newp = " ".join(function_body(src, "direct_newp"))
     store = "( ( CDataObject_own_structptr * ) cd ) -> structobj = ( PyObject * ) cds ;"
     if newp.count(store) != 1:
@@ -269,9 +277,9 @@ def structptr_owns(src):
             [("expr", "Py_DECREF ( ( ( CDataObject_own_structptr * ) cd ) -> structobj )")], None)
     if slot_owner(src, "destructor", "cdataowning_dealloc") != "POwning":
         _fail("cdataowning_dealloc is not the tp_dealloc of CDataOwning_Type")
-    del s
-    return drop in dealloc and dealloc.index(drop) < dealloc.index(("expr", "cdata_dealloc ( cd )")) \
-        if ("expr", "cdata_dealloc ( cd )") in dealloc else _fail("cdataowning_dealloc does not end in cdata_dealloc")
+    if not dealloc or dealloc[-1] != ("expr", "cdata_dealloc ( cd )"):
+        _fail("cdataowning_dealloc does not end in cdata_dealloc(cd)")
+    return drop in dealloc
 
 
 def finalize_facts(src):
@@ -310,16 +318,6 @@ def gcp_finalize_calls(src):
     call = "PyObject_CallFunctionObjArgs ( destructor , origobj , NULL )"
     total = " ".join(function_body(src, "gcp_finalize")).count("PyObject_Call")
     guarded = 0
-
-    def text(stmts):
-        out = []
-        for s in stmts:
-            if s[0] == "if":
-                out.append(text(s[2]))
-                out.append(text(s[3] or []))
-            elif s[0] in ("expr", "return"):
-                out.append(s[1])
-        return " ; ".join(out)
     for s in body:
         if s[0] == "if" and s[1] == "destructor != NULL":
             inner_top = [x[1] for x in s[2] if x[0] == "expr"]
